@@ -7,7 +7,11 @@ CellBad(i, ev) ==
     j \in { j \in 1..Len(ev.ok) :
               /\ ~Skipped(ev.fn, ev.lo + j - 1)
               /\ ~PropAccept(ev.fn, ev.Z, ev.lo + j - 1, ev.ok[j] = 1, ev.v[j]) } }
-BadOf(i, ev) == IF ev.k = "row" /\ ev.fn \in ScalarQ THEN CellBad(i, ev)
+\* a caller who passes no error slot must get the same bits (where the call fails: the 0 sentinel, never a number)
+NoSlot(i, ev) == IF "nd" \in DOMAIN ev /\ ev.nd # 0
+                 THEN {[prop |-> "C01", line |-> i, fn |-> ev.fn, Z |-> ev.Z, m |-> ev.ndm, why |-> "called without an error slot the accessor returned something else than with one", cells |-> ev.nd]}
+                 ELSE {}
+BadOf(i, ev) == IF ev.k = "row" /\ ev.fn \in ScalarQ THEN CellBad(i, ev) \cup NoSlot(i, ev)
                 ELSE {[prop |-> "C01", line |-> i, why |-> "unexpected event", ev |-> ev]}
 Judged == JudgedWith(BadOf)
 ============================================================================
